@@ -10,7 +10,7 @@ correspondence    : LIBFIVE_VERIF schedule points: with one worker the number of
 property oracle   : systematic cancellation: the flag is raised at the k-th visit of a named site (worker-pool loop, leaf
                     evaluation, child collection, index assignment loop, dual-walk loop, dual work, after build / assign /
                     walk), k swept over 1..count; the call must return within the watchdog and return null or a mesh
-                    identical in size and closedness to the uncancelled one; uncancelled renders always return a mesh
+                    as closed as, and within 5 % of the size of, the uncancelled one; uncancelled renders always return a mesh
 """
 import os
 import sys
@@ -162,7 +162,11 @@ def run(replay=None):
                                  {"program": q.text()[:3000], "command": q.lines[cmd - 1], "detail": out[0]})
             else:
                 if workers == 1:
-                    same = (int(f["tris"]), int(f["verts"]), f["closed"]) == b[:3]
+                    # even with one worker two renders of the same shape are not bit-identical in an
+                    # optimised build (the -march=native Eigen kernels sum in an order that depends on
+                    # the alignment of heap blocks, which moves QEF solutions and collapse decisions by
+                    # a few triangles): complete = closed like the uncancelled mesh and within 5 % of it
+                    same = f["closed"] == b[2] and abs(int(f["tris"]) - b[0]) <= max(16, 0.05 * b[0])
                 else:
                     # with several workers the mesh itself depends on the schedule (cells are merged
                     # against whichever neighbours exist at that moment): complete = closed like the
